@@ -37,7 +37,7 @@ func (c12) Gen(dt *drv.T, c *Ctx) any {
 	cs := &C12Case{Seed: drv.Uint64Range(1, 1<<62).Draw(dt, "seed")}
 	cs.How = pick(dt, "how", "", "", "errorf", "errorf", "error-const", "fail", "panic")
 	if chance(dt, "collection", 7) {
-		cs.What = pick(dt, "coll", "slice", "string", "map", "mapbool", "distinct", "mapsmall", "stringof", "stringmax")
+		cs.What = pick(dt, "coll", "slice", "string", "map", "mapbool", "distinct", "mapsmall", "stringof", "stringmax", "sliceN", "stringN", "mapN")
 		cs.IK = pick(dt, "elem", "Int", "Uint8", "Int64", "Uint16")
 		cs.K = drv.IntRange(0, 32).Draw(dt, "k")
 		switch cs.What {
@@ -49,6 +49,9 @@ func (c12) Gen(dt *drv.T, c *Ctx) any {
 		case "distinct", "mapsmall":
 			cs.D = drv.IntRange(2, 6).Draw(dt, "domain")
 			cs.K = drv.IntRange(0, cs.D).Draw(dt, "ksmall")
+		case "sliceN", "stringN", "mapN":
+			// collections with an upper length limit above the threshold: SliceOfN(.., 0, k+D), StringN(-1, k+D, -1), MapOfN
+			cs.D = drv.IntRange(0, 12).Draw(dt, "slack")
 		case "stringof":
 			cs.D = drv.IntRange(1, 3).Draw(dt, "alphabet")
 		case "stringmax":
@@ -132,9 +135,15 @@ func c12Prop(cs *C12Case) (prop func(*rapid.T), last func() any) {
 				fail(t, "too long: %d", utf8.RuneCountInString(x))
 			}
 		}
-	case "mapbool", "distinct", "mapsmall", "stringof", "stringmax":
+	case "mapbool", "distinct", "mapsmall", "stringof", "stringmax", "sliceN", "stringN", "mapN":
 		var cg *rapid.Generator[any]
 		switch cs.What {
+		case "sliceN":
+			cg = rapid.SliceOfN(g, 0, cs.K+cs.D).AsAny()
+		case "stringN":
+			cg = rapid.StringN(-1, cs.K+cs.D, -1).AsAny()
+		case "mapN":
+			cg = rapid.MapOfN(g, rapid.Bool(), 0, cs.K+cs.D).AsAny()
 		case "mapbool":
 			cg = rapid.MapOf(rapid.Bool(), g).AsAny()
 		case "distinct":
@@ -239,9 +248,11 @@ func (c12) Run(c *Ctx, csAny any) Outcome {
 		if n := utf8.RuneCountInString(got.(string)); n != cs.K {
 			out.Viol = violf("C12:inexact:string-length", "String(), fails when it has >= %d runes: reported %q (%d runes)", cs.K, got, n)
 		}
-	case "mapbool", "distinct", "mapsmall", "stringof", "stringmax":
+	case "mapbool", "distinct", "mapsmall", "stringof", "stringmax", "sliceN", "stringN", "mapN":
 		out.NonTrivial = cs.K >= 1
-		if n := collLen(got); n != cs.K {
+		if n := collLen(got); n != cs.K && (cs.What == "sliceN" || cs.What == "stringN" || cs.What == "mapN") {
+			out.Viol = violf("C12:inexact:bounded-collection", "%s with the upper limit %d, fails when it has >= %d elements: reported %d elements", cs.What, cs.K+cs.D, cs.K, n)
+		} else if n != cs.K {
 			out.Viol = violf("C12:inexact:small-domain-collection", "%s (domain / limit %d), fails when it has >= %d elements: reported %#v (%d elements)", cs.What, cs.D, cs.K, got, n)
 		}
 	case "map":
